@@ -661,3 +661,153 @@ func RunC19Cold(c *core.Ctx, idx int) {
 		c.Inconclusive("cold start child gave no verdict: " + clipS(s, 200))
 	}
 }
+
+// RunC19Derived: instances that were derived from one another.  The sets that
+// And, Or, Sans and Xor return, and sorters made with the class's default
+// ranker, are different instances from their operands and from each other;
+// each is used by its own goroutine (values are slices, so that ranking them
+// is a traversal with state) and must behave as it does alone.
+func RunC19Derived(c *core.Ctx, idx int) {
+	col.VerifSetHook(nil)
+	seed := c.Rng.Uint64()
+	n := cdc.Notation().Make()
+	nest := func(k int) []any {
+		var v []any = []any{int64(k % 5), int64(k)}
+		for d := 0; d < 6; d++ {
+			v = []any{v}
+		}
+		return v
+	}
+	build := func() (insts []any, names []string) {
+		s := seed
+		S := col.Set[any](n)
+		a, b := S.Make(), S.Make()
+		for i := 0; i < 12; i++ {
+			a.AddValue(nest(lcg(&s) % 16))
+			b.AddValue(nest(lcg(&s) % 16))
+		}
+		insts = []any{a, b, S.And(a, b), S.Or(a, b), S.Sans(a, b), S.Xor(a, b)}
+		names = []string{"A", "B", "And(A,B)", "Or(A,B)", "Sans(A,B)", "Xor(A,B)"}
+		for i := 0; i < 4; i++ {
+			insts = append(insts, age.Sorter[any]().MakeWithRanker(age.Sorter[any]().DefaultRanker()))
+			names = append(names, fmt.Sprintf("sorter %d made with the class's default ranker", i+1))
+		}
+		return
+	}
+	script := func(inst any, k int) string {
+		s := seed + uint64(k)*977
+		switch x := inst.(type) {
+		case col.SetLike[any]:
+			var out []any
+			for i := 0; i < 60; i++ {
+				v := nest(lcg(&s) % 16)
+				out = append(out, x.ContainsValue(v), x.GetIndex(v))
+				if i%7 == 3 {
+					x.AddValue(v)
+				} else if i%7 == 5 {
+					x.RemoveValue(v)
+				}
+			}
+			return fmt.Sprint(out, x.GetSize())
+		case age.SorterLike[any]:
+			vals := make([]any, 40)
+			for i := range vals {
+				vals[i] = nest(lcg(&s) % 16)
+			}
+			x.SortValues(vals)
+			return fmt.Sprint(vals)
+		}
+		return ""
+	}
+	// sequential reference on an identical build
+	refI, names := build()
+	refs := make([]string, len(refI))
+	for k, inst := range refI {
+		var p string
+		func() {
+			defer func() {
+				if e := recover(); e != nil {
+					p = fmt.Sprint(e)
+				}
+			}()
+			refs[k] = script(inst, k)
+		}()
+		if p != "" {
+			c.Violation("derived/script-panicked-sequentially", "the script of "+names[k]+" panicked when run alone: "+p, nil)
+			return
+		}
+	}
+	insts, _ := build()
+	got := make([]string, len(insts))
+	pan := make([]string, len(insts))
+	var start, done sync.WaitGroup
+	start.Add(1)
+	for k := range insts {
+		k := k
+		done.Add(1)
+		go func() {
+			defer done.Done()
+			defer func() {
+				if e := recover(); e != nil {
+					pan[k] = fmt.Sprint(e)
+				}
+			}()
+			start.Wait()
+			got[k] = script(insts[k], k)
+		}()
+	}
+	start.Done()
+	done.Wait()
+	for k := range insts {
+		cs := map[string]any{"instance": names[k]}
+		if pan[k] != "" {
+			c.Violation("derived/panic", fmt.Sprintf("operations on %s panicked while the instances it was derived from (or with) were used by other goroutines: %s", names[k], clipS(pan[k], 200)), cs)
+			return
+		}
+		if got[k] != refs[k] {
+			cs["sequential"], cs["concurrent"] = clipS(refs[k], 300), clipS(got[k], 300)
+			c.Violation("derived/transcript-differs", "operations on "+names[k]+" gave another result than when run alone", cs)
+			return
+		}
+	}
+	c.Cover("derived.instances")
+	c.Distinct(core.Mix(0xde71, seed))
+}
+
+// ReproSharedCollator (race build): a set and the set Or returned for it are
+// used by two goroutines.
+func ReproSharedCollator() (bool, string) {
+	n := cdc.Notation().Make()
+	nest := func(k int) []any {
+		var v []any = []any{int64(k)}
+		for d := 0; d < 10; d++ {
+			v = []any{v}
+		}
+		return v
+	}
+	S := col.Set[any](n)
+	a, b := S.Make(), S.Make()
+	for i := 0; i < 8; i++ {
+		a.AddValue(nest(i))
+		b.AddValue(nest(i + 4))
+	}
+	r := S.Or(a, b)
+	res := concurrently(2, func(i int) string {
+		s := a
+		if i == 1 {
+			s = r
+		}
+		for k := 0; k < 3000; k++ {
+			if !s.ContainsValue(nest(k % 8)) {
+				return fmt.Sprintf("ContainsValue(member %d) = false", k%8)
+			}
+		}
+		return ""
+	})
+	for _, x := range res {
+		if x != "" {
+			return true, "a set and the result of Or(a, b), used from two goroutines: " + x
+		}
+	}
+	return false, "a set and the result of Or(a, b) can be used from two goroutines (race reports, if any, are in the output)"
+}
